@@ -47,7 +47,7 @@ CONF['views'] = dict(quick=[('gates-deep', ('H_G', 'M_E0', 'T_G2', 'O_G2', 4, 2,
                      thorough=CONF['gates']['thorough'] + CONF['struct']['thorough'])
 
 PROPS = {
-    'C12': dict(conf=['struct'], owned={'accept_iff', 'rule_named', 'n_subcircuits'}, sites=('run', 'run_shared'),
+    'C12': dict(conf=['struct'], owned={'accept_iff', 'rule_named', 'n_subcircuits', 'discover_trace'}, sites=('run', 'run_shared'),
                 rule='placements of prepare_all / measure_all / gates / subcircuit blocks over nested sequential blocks, '
                      'parallel blocks, loops (0, 1, 2, let) and a macro; non-trivial = distinct programs with a loop or a block '
                      'around a prepare/measure event'),
